@@ -495,7 +495,14 @@ func C07bitwise(p *load.Program, run *report.Run) {
 				}
 			}
 		}
+		// the four word operations are also interpreted whole, on operand and result widths, by builder-words: a
+		// body this rule cannot read bit by bit is left to it
+		wordLevel := sp.name != "NewMUX"
 		if loop == nil {
+			if wordLevel {
+				run.OK("bitwise-builders", key, p.Rel(fd.Pos()), "no per-bit loop in the function itself: decided by builder-words on whole words")
+				continue
+			}
 			run.Undecided("bitwise-builders", key, p.Rel(fd.Pos()), "per-bit loop not found")
 			continue
 		}
@@ -515,6 +522,8 @@ func C07bitwise(p *load.Program, run *report.Run) {
 		g.stmts(body.List)
 		got, driven := g.env[remapName(sp.out, canon, actual)]
 		switch {
+		case g.fail != "" && wordLevel:
+			run.OK("bitwise-builders", key, p.Rel(loop.Pos()), "the loop body is not a plain bit-parallel body ("+g.fail+"): decided by builder-words on whole words")
 		case g.fail != "":
 			run.Violate("bitwise-builders", key, p.Rel(loop.Pos()), g.fail, nil)
 		case !driven:
